@@ -82,6 +82,14 @@ def confirm(v):
         return False, 'no replay for %s' % v['what']
     r1, r2 = drv(e1).call(**req), drv(e2).call(**req)
     show = lambda r: native.uncps(r['out']) if isinstance(r.get('out'), list) else {k: r.get(k) for k in ('out', 'err', 'panic')}
+    if show(r1) == show(r2) and any(k.startswith('hashorder') or k.startswith('random_state') for k in v.get('env', {})):
+        # per-process hasher keys cannot be set from outside: try a few more fresh processes
+        for n in range(8):
+            e3 = dict(e2, VERIF_NONCE=str(n))
+            r2 = drv(e3).call(**req)
+            e2 = e3
+            if show(r1) != show(r2):
+                break
     desc = '%s %s under %s -> %r ; under %s -> %r' % (v['what'], {k: v[k] for k in ('pattern', 'ts', 'input', 'schema_text', 'vars') if k in v}, e1, show(r1), e2, show(r2))
     return show(r1) != show(r2), desc
 
@@ -102,7 +110,7 @@ def main():
     ck.bounds = dict(environment='per execution: local time zone = any whole-hour UTC offset -12..+14, any environment variable absent or one symbolic character, hasher keys of every RandomState any u64; the wall clock is shared between the two executions',
                      timestamps='any second 1970-2199 (minus 14 h at both ends)', patterns=pats_ts, functions=[list(a) for a in fargs],
                      flow_configurations=len(flows), calendar_schemas=len(rend))
-    ck.outside = ['separate OS processes, current directory (-C), locales, the git source (its facts are C02\'s subject)', 'iteration order of std HashMap/HashSet (modelled in insertion order; not varied)',
+    ck.outside = ['separate OS processes, current directory (-C), locales, the git source (its facts are C02\'s subject)', 'std hash containers with more than 4 entries iterated under the harness (unsupported)',
                   'environment reads other than chrono Local / std::env::var / RandomState (any other is unsupported -> exit 2, never a pass)', 'the dev timestamp itself (documented wall-clock dependence)']
     ck.assumptions = ['models_env: environment reads answer epoch-private solver variables', 'python std / chrono / Tera-subset models (models_used)']
     cands = []
